@@ -43,7 +43,10 @@ type hist struct {
 	id  string
 	dir string
 	rng *rand.Rand
-	in  *inst
+	// rng2 drives the no-op batches (noop.go): a stream of its own, so that inserting them
+	// leaves the rest of the history (drawn from rng) as it was
+	rng2 *rand.Rand
+	in   *inst
 	uni []ukey
 	idx map[string]int // key -> universe index
 
@@ -72,6 +75,9 @@ type hist struct {
 	notes  map[string]map[string]bool
 
 	nFind, nDelPresent, nOversize, nBatchRepeat int
+
+	plainSets int // stored plain Sets since the store was last opened / wiped
+	noopID    int
 }
 
 func (h *hist) note(set, item string) {
@@ -281,6 +287,7 @@ func (h *hist) doSet() {
 	h.noteGiant("set", k.K)
 	if inLimits(k.K, v.S) {
 		h.mset(k.K, v.S)
+		h.plainSets++
 	} else {
 		h.nOversize++
 	}
@@ -730,6 +737,7 @@ func (h *hist) doReopen() {
 		return
 	}
 	h.in = in
+	h.plainSets = 0
 	h.note("events", "reopen")
 	h.audit("reopen")
 }
@@ -742,7 +750,7 @@ func runHistory(r *ev.Run, root, id string, sp *spec, hno int, bulkN int) {
 		return
 	}
 	defer os.RemoveAll(dir)
-	h := &hist{r: r, sp: sp, id: id, dir: dir, rng: rng, model: map[string]string{}, idx: map[string]int{},
+	h := &hist{r: r, sp: sp, id: id, dir: dir, rng: rng, rng2: r.Rand("noop-batch/" + id), model: map[string]string{}, idx: map[string]int{},
 		counts: map[string]int{}, notes: map[string]map[string]bool{}}
 	h.uni = buildUniverse(rng)
 	h.baseN = len(h.uni)
@@ -810,6 +818,10 @@ func runHistory(r *ev.Run, root, id string, sp *spec, hno int, bulkN int) {
 		if debugTiming && n0 < len(h.rec.Ops) {
 			addTiming(sp.name+"/"+h.rec.Ops[n0].Op, time.Since(t0)) // diagnostics only (C10_DEBUG)
 		}
+		// about one op in 20 is followed by a batch that must change nothing
+		if h.rng2.Intn(100) < 5 && !h.dead && h.reported < 3 {
+			h.doNoopBatch()
+		}
 	}
 	if !h.dead && h.reported < 3 {
 		h.audit("")
@@ -842,7 +854,7 @@ func runHistory(r *ev.Run, root, id string, sp *spec, hno int, bulkN int) {
 		r.Count("ops_"+op, n)
 		r.Count("ops/"+sp.name+"/"+op, n)
 		switch op {
-		case "get", "set", "delete", "batch", "find", "flush", "reopen", "wipe", "readtx":
+		case "get", "set", "delete", "batch", "find", "flush", "reopen", "wipe", "readtx", "noop_batch":
 			r.Note("op_"+op, sp.name)
 		}
 	}
